@@ -6,6 +6,7 @@ Structural facts selecting the variant of the inspection model:
   track_last_data : type-flow check against the last data-carrying node
                     (vs. adjacent nodes only, skipping pairs around context-only nodes)
   origin_last     : key_origin records the last creator (vs. setdefault = first creator)
+  deleted_at_entry: deleted-key check against the keys deleted before the node
 """
 import ast
 
@@ -14,7 +15,7 @@ from harness.translate import TranslationError, find_def, parse
 
 OUT = "InspectGen.v"
 FALLBACK = """From SV Require Import Model.Inspect.
-Definition impl : variant := mkVariant false false false.
+Definition impl : variant := mkVariant false false false false.
 Definition translation_failed := true.
 """
 
@@ -25,7 +26,12 @@ def translate():
     src = ast.unparse(fn)
     if "inspect_origin(name=name, processor_cls=processor.__class__, processor_config=node.processor_config, key_origin=key_origin, deleted_keys=deleted_keys)" not in src:
         raise TranslationError("build_pipeline_inspection: parameter classification is not inspect_origin(...)")
-    if "missing_deleted = required_params & deleted_keys - suppressed_keys" not in src:
+    if "missing_deleted = (required_params & deleted_keys) - suppressed_keys" in src:
+        at_entry = False
+    elif "missing_deleted = required_params & deleted_at_entry" in src and "deleted_at_entry = set(deleted_keys)" in src \
+            and src.index("deleted_at_entry = set(deleted_keys)") < src.index("for key in created_keys:"):
+        at_entry = True
+    else:
         raise TranslationError("build_pipeline_inspection: deleted-key check not found")
     # required keys
     if "required_context_keys = all_required_params - all_created_keys" in src and "all_required_params.update(required_params)" in src:
@@ -67,7 +73,7 @@ def translate():
         raise TranslationError("_is_compatible: unknown rule")
     text = """(* GENERATED from semantiva/inspection/builder.py and validator.py — do not edit *)
 From SV Require Import Model.Inspect.
-Definition impl : variant := mkVariant %s %s %s.
+Definition impl : variant := mkVariant %s %s %s %s.
 Definition translation_failed := false.
-""" % (cq_bool(order_sensitive), cq_bool(track_last), cq_bool(origin_last))
+""" % (cq_bool(order_sensitive), cq_bool(track_last), cq_bool(origin_last), cq_bool(at_entry))
     return text, [p1, p2]
